@@ -10,4 +10,13 @@ TEXTS = {
         "technique": "Lean 4 theorem over an executable model + differential correspondence with the Go code",
     },
 }
+TEXTS["C02"] = {
+    "text": "Proved on the Lean model of HandleIBTP/checkIBTP/ProcessIBTP/applyTransaction for all states and IBTPs: the index gate accepts exactly counter+1 "
+            "(C02_index_check_exact, C02_accept_needs_next_index); an IBTP rejected by the proof/signature check or by the contract leaves the contract store and the "
+            "delivery events untouched (C02_rejected_by_check_no_effect, C02_rejected_by_contract_no_effect). The full clause 'any rejected IBTP has no effect' is false "
+            "of the code and is kept with a machine-checked counter-example (fee failure after processing: C02_rejected_no_effect_false), listed as a known finding. "
+            "Model is run against the real executor+contracts on generated histories; model-free monitor recomputes accepted indices, counters and delivery sets from receipts.",
+    "note": TB,
+    "technique": "Lean 4 theorems over an executable model of the interchain contract + differential correspondence with the real executor",
+}
 NOT_YET = {}
